@@ -206,7 +206,14 @@ ReadSeq(toks, p, ph, cl, acc) ==
 (*   "ok" v | "empty" | "incomplete" closer | "malformed" | "lexerr" why   *)
 (*   | "unspec"                                                            *)
 (***************************************************************************)
+\* U+2400 stands for the NUL character (which a TLA+ string cannot hold; the harness puts the real one in).  NUL is not
+\* a character of any token, string or comment: a text holding one is no expression and no prefix of one -- it is
+\* rejected, and appending closers cannot complete it.
+NulCh == "␀"
+RECURSIVE HasNul(_, _)
+HasNul(s, i) == i <= Len(s) /\ (Ch(s, i) = NulCh \/ HasNul(s, i + 1))
 ReadWith(s, ph) ==
+  IF HasNul(s, 1) THEN RR("malformed", NilV, 0, "nul") ELSE
   LET lx == Tokenize(s) IN
     IF lx.st = "unspec" THEN RR("unspec", NilV, 0, lx.why)
     ELSE IF lx.st = "lexerr" THEN
